@@ -55,6 +55,12 @@ impl Docs {
     pub fn api(&self) -> &DocsApi {
         &self.api
     }
+
+    /// Verification hook: the engine behind this docs instance.
+    #[cfg(feature = "verif")]
+    pub fn verif_engine(&self) -> &Arc<Engine> {
+        &self.engine
+    }
 }
 
 impl std::ops::Deref for Docs {
